@@ -179,6 +179,11 @@ pub fn c15(tier: &str, seed: u64, meta: &str) -> Report {
         let (w, sessions) = st;
         let mut rng = Rng::new(seed ^ i.wrapping_mul(0xC15));
         let forced: Option<&String> = if i >= total { Some(&suspects[((i - total) / 2) as usize]) } else { None };
+        // numbers are words too: digits followed by quotes / punctuation (no dictionary candidates, but the first
+        // candidate still is the composed text with its quotes curled)
+        let digit_words = ["৫".to_string(), "১২".to_string(), "২০২৪".to_string()];
+        let forced: Option<&String> = if forced.is_none() && i % 25 == 19 { Some(&digit_words[(i / 25 % 3) as usize]) } else { forced };
+        let is_number = forced.map(|f| f.chars().all(|c| ('০'..='৯').contains(&c))).unwrap_or(false);
         // traditional joining, smart quotes, English, ANSI
         let bits = 64 | (((i % 2) as u32) << 2) | ((((i / 2) % 2) as u32) << 9) | ((((i / 4) % 2) as u32) << 7) | ((((i / 8) % 4 == 0) as u32) << 8);
         if !sessions.contains_key(&bits) {
@@ -201,7 +206,7 @@ pub fn c15(tier: &str, seed: u64, meta: &str) -> Report {
             else { let cs: Vec<char> = prefix.chars().collect(); let at = 1 + rng.below(cs.len()); prefix = cs[..at].iter().chain([if rng.chance(2, 3) { '\u{200D}' } else { '\u{200C}' }].iter()).chain(cs[at..].iter()).collect(); }
         }
         let lead = if forced.is_some() { "" } else { *rng.pick(&["", "", "", "(", "\"", "'"][..]) };
-        let trail = if forced.is_some() { "" } else { *rng.pick(&["", "", "", "!!", ")", "\".", "'", "?!", ",", ";;"][..]) };
+        let trail = if is_number { *rng.pick(&["\"", "'", "'\"", "\".", ""][..]) } else if forced.is_some() { "" } else { *rng.pick(&["", "", "", "!!", ")", "\".", "'", "?!", ",", ";;"][..]) };
         // an independent vowel behind a consonant may also be typed as hasanta + vowel sign (the two merge into the
         // vowel: the composition changes although its length does not)
         let spelled: String = if forced.is_none() && (with_merge || rng.chance(1, 5)) {
@@ -320,13 +325,18 @@ pub fn c16(tier: &str, seed: u64, meta: &str) -> Report {
                 match fpr.keys_for(&t) { Some(k) => k, None => continue }
             };
             let mut raw = String::new();
+            let mut shown = 1usize;
             for e in evs.iter().chain(std::iter::once(&SEv::Finish)) {
                 if let SEv::Key(k, _, _) = e { if let Some(c) = key_char(*k) { raw.push_str(&c.to_string()); } }
                 let raw = raw.clone();
+                // every key carries an index that is valid for the list shown before (the same byte in the three contexts)
+                let passed = rng.below(shown.max(1)).min(255) as u8;
+                let e = &match e { SEv::Key(k, m, _) => SEv::Key(*k, *m, passed), x => x.clone() };
                 let a = feed(w, &mut s_on_e, &[e.clone()], rep, "C16").pop().unwrap();
                 let b = feed(w, &mut s_on, &[e.clone()], rep, "C16").pop().unwrap();
                 let c = feed(w, &mut s_off, &[e.clone()], rep, "C16").pop().unwrap();
                 rep.evaluations += 1;
+                shown = [&a, &b, &c].iter().map(|st| match &st.out { Out::Full { list, .. } => list.len().max(1), _ => 1 }).min().unwrap_or(1);
                 let describe = |s: &Session, what: &str, extra: Value| json!({"what": what, "method": if phonetic { "phonetic" } else { "fixed (Probhat)" }, "details": extra, "session": s.describe()});
                 // regardless of the English option
                 if a.imp != b.imp { rep.fail(describe(&s_on_e, "with ANSI on the English option changes the suggestion", json!({"english_on": explain(&a.imp), "english_off": explain(&b.imp)}))); }
